@@ -491,6 +491,7 @@ impl C10 {
         let log = guard.log();
         drop(guard);
         rep.count("steps.svr_smo_iterations", ticks.get());
+        rep.count("fault.resonant-parameter", (case.kind == "svr-resonant") as u64);
         rep.count("steps.svr_kernel_evals", count.get());
         rep.max("svr_smo_iterations_per_fit", ticks.get() as f64);
         rep.count("probe.svr-iterations>1e4", (ticks.get() > 10_000) as u64);
